@@ -531,6 +531,11 @@ TScan ==
           /\ Check(ScanEqualsTruth(S2, w, Utxo2, e.del, Len(S2.chain)), "C16", "ScanEqualsTruth", e,
                    IF e.del THEN "del" ELSE "nodel")
           /\ (w \in aux.fresh) => Check(RestoredExact(S2, w, Utxo2, hOf), "C16", "RestoredExact", e, "")
+          \* C15: after a restore the next path handed out lies beyond every path found on chain
+          /\ (w \in aux.fresh) =>
+                Check(\A o \in TruthOuts(S2, w, Utxo2) :
+                         S2.reg[o].pa \in DOMAIN S2.w[w].idx => S2.w[w].idx[S2.reg[o].pa].child > S2.reg[o].n,
+                      "C15", "RestoreBeyond", e, "")
           /\ repeated => Check([S2.w[w] EXCEPT !.scanned = 0] = [st.w[w] EXCEPT !.scanned = 0], "C16", "ScanIdempotent", e, "")
           /\ Check(RevertedReported(st, S2, w, Utxo2), "C18", "RevertedReported", e, "scan")
           \* history: payments a reorganisation removed and that are still gone must be reverted by now
